@@ -117,3 +117,78 @@ MANIFEST_TEXT = {
             "text": "No write event after the last flush at the return of every API call of the random sessions (echo, recall, completion, handler output, parse errors, help, Cli::write, set_prompt, build).",
             "note": _SESSION_NOTE},
 }
+
+# ---------------------------------------------------------------- component workloads
+
+PLANS["C04"] = {
+    "level": "exploration",
+    "rule": "stage 1: every sequence of key units up to the depth bound (quick 6, thorough 7) over 20 unit classes pushed byte by byte into the real InputGenerator in lockstep with a reference decoder written from the statement "
+            "(sequences pairing a lone ESC with `[` excluded: that pair is a CSI introducer by definition); stage 2: random unit streams (long terminator runs, long CSI parameter strings, all ignored controls) through a real Cli, effects per unit compared with an ideal editor driven by the reference decoder. "
+            "evaluation = one byte comparison (stage 1) or one unit effect check (stage 2); distinct = hash of (reference decoder state, unit class, byte index) and CR/LF run patterns up to length 6",
+    "assumptions": ["DEL, bytes outside 0x20-0x7E inside a CSI sequence and control bytes inside a multi-byte character are left open by the statement and are not generated"],
+    "exhaustive": {"quick": True, "thorough": True},
+    "exhaustive_note": {"quick": "stage 1 only: all unit sequences of length <= 6 over the 20 unit classes", "thorough": "stage 1 only: all unit sequences of length <= 7 over the 20 unit classes"},
+    "min_counts": {"quick": {"c04.sequences": 50000000, "c04.cli.terminator_units": 50000}, "thorough": {"c04.sequences": 1000000000, "c04.cli.terminator_units": 1000000}},
+    "stages": [{"variant": "fast", "workload": "C04-direct"}, {"variant": "dbg", "workload": "C04-cli"}],
+}
+
+PLANS["C02"] = {
+    "level": "exploration",
+    "rule": "stage 1 (exhaustive sub-space): every sequence of 1-3 bytes >= 0x80, and 4-byte sequences (quick: over 24 boundary bytes, thorough: all 2^28), pushed into a fresh real Utf8Accum followed by the sentinels A, é, €, 𐍈; "
+            "clauses: every emitted item is one well-formed scalar, the strict maximal-subpart scan of the input is a subsequence of what was emitted, emitted bytes are a subsequence of the input. "
+            "stage 2: hostile random streams (keys + overlong/surrogate/out-of-range/truncated/stray/F8-FF fragments, also as short-option text) through the whole Cli with every hand-out point (handler name/values/option names/short-option scalars, hooked line, echo bytes per call) validated. "
+            "stage 3: streams of characters and malformed fragments submitted as a command name: the handler must receive the strict scan as a subsequence. distinct = enumerated sequences (disjoint by construction) + hash of hand-out situations",
+    "assumptions": ["emitting more than the strict scan (e.g. completing a sequence across an ignored byte) is allowed by the statement and only counted"],
+    "exhaustive": {"quick": False, "thorough": True},
+    "exhaustive_note": {"quick": "all sequences of 1-3 bytes >= 0x80 (2,113,664) + 331,776 boundary 4-byte sequences", "thorough": "all sequences of 1-4 bytes >= 0x80 (270,549,120)"},
+    "min_counts": {"quick": {"c02.direct.sequences": 2400000, "c02.handout.handler_records": 20000, "c02.accept.streams": 30000},
+                   "thorough": {"c02.direct.sequences": 270000000, "c02.handout.handler_records": 500000, "c02.accept.streams": 700000}},
+    "stages": [{"variant": "fast", "workload": "C02-direct"}, {"variant": "dbg", "workload": "C02-cli"}, {"variant": "dbg", "workload": "C02-accept"}],
+}
+
+MANIFEST_TEXT["C04"] = {
+    "technique": "runtime monitoring: real InputGenerator in byte-level lockstep with a reference decoder over a bounded-exhaustive set of key-unit sequences; unit effects observed through a real Cli",
+    "design_ref": "DESIGN.md §6 C04",
+    "text": "Byte-level agreement with a reference decoder on every key-unit sequence up to depth 6/7 over 20 boundary-value unit classes (deeper than the decoder's memory: one flag, one byte, <=3 pending octets), plus effect checks through the Cli on long random streams.",
+    "note": "Trusted base: reference decoder (60 lines, from the statement), harness. Open points of the statement are not generated."}
+MANIFEST_TEXT["C02"] = {
+    "technique": "runtime monitoring: UTF-8 validity monitor at every hand-out point + subsequence oracle against a strict maximal-subpart scan, over a bounded-exhaustive byte-sequence space and hostile random streams",
+    "design_ref": "DESIGN.md §6 C02",
+    "text": "Exhaustive over all <=3-byte (quick) / <=4-byte (thorough) sequences of bytes >= 0x80 at the decoder; exploration for whole-CLI streams.",
+    "note": "Trusted base: core::str::from_utf8 as the definition of well-formedness; harness."}
+
+PLANS["C07"] = {
+    "level": "exploration",
+    "rule": "stage 1 (exhaustive sub-space): every string of length <= 7 (quick) / <= 9 (thorough) over {a, space, quote, backslash, dash, é} through the real Tokens::new, result must be a member of the set-valued reference tokenizer's output, valid UTF-8 and not longer than the line; "
+            "stage 2: random lines up to 200 scalars over 12 symbols, round trip of random string lists through four renderings (quoted single space, quoted with blank runs, quoted adjacent, bare where possible), and every fourth list typed into a real Cli (name = first element, rest after --). "
+            "distinct = enumerated strings (disjoint by construction) + hash of the character-class shape of random lines/renderings",
+    "assumptions": ["open points kept as alternatives: backslash before a character other than quote/backslash inside quotes; a backslash as the very last character inside an open quote",
+                    "quotes and backslashes inside a token that does not start with a quote are literal (the statement only gives quoting meaning to tokens that start with a quote)"],
+    "exhaustive": {"quick": True, "thorough": True},
+    "exhaustive_note": {"quick": "stage 1 only: all 335,923 strings of length <= 7 over 6 symbols", "thorough": "stage 1 only: all 12,093,235 strings of length <= 9 over 6 symbols"},
+    "min_counts": {"quick": {"c07.direct.lines": 335000, "c07.roundtrip.renderings": 300000, "c07.end_to_end.lines": 20000},
+                   "thorough": {"c07.direct.lines": 12000000, "c07.roundtrip.renderings": 10000000, "c07.end_to_end.lines": 700000}},
+    "stages": [{"variant": "dbg", "workload": "C07-direct"}, {"variant": "dbg", "workload": "C07-random"}],
+}
+MANIFEST_TEXT["C07"] = {
+    "technique": "runtime monitoring: real tokenizer output checked for membership in a set-valued reference tokenizer over a bounded-exhaustive string space; round-trip oracle on random lists; end-to-end through the Cli",
+    "design_ref": "DESIGN.md §6 C07",
+    "text": "Exhaustive over all strings up to length 7/9 over six boundary symbols; exploration for long random lines and the list round trip.",
+    "note": "Trusted base: reference tokenizer (70 lines, from the statement), harness."}
+
+PLANS["C08"] = {
+    "level": "exploration",
+    "rule": "stage 1 (exhaustive sub-space): every list of <= 4 (quick) / <= 5 (thorough) tokens over 18 token shapes (empty, -, --, ---, clusters incl. multi-byte, long names, values with dashes/blanks, -h, --help) through the real ArgList, compared item by item with the reference classifier; "
+            "stage 2: random lists of <= 12 tokens over {-, a, é, €, 𐍈, blank}, and every third list typed (quoted as needed) into a real Cli and compared at the handler. distinct = enumerated lists + hash of the item-kind sequence",
+    "assumptions": ["re-joining law is checked as equality with the reference classification (which is the unique classification that re-joins to the token list under the stated rules)"],
+    "exhaustive": {"quick": True, "thorough": True},
+    "exhaustive_note": {"quick": "stage 1 only: all 111,151 lists of <= 4 tokens over 18 shapes", "thorough": "stage 1 only: all 2,000,719 lists of <= 5 tokens over 18 shapes"},
+    "min_counts": {"quick": {"c08.direct.lists": 111000, "c08.random.lists": 70000, "c08.end_to_end.lines": 15000},
+                   "thorough": {"c08.direct.lists": 2000000, "c08.random.lists": 1900000, "c08.end_to_end.lines": 400000}},
+    "stages": [{"variant": "dbg", "workload": "C08-direct"}, {"variant": "dbg", "workload": "C08-random"}],
+}
+MANIFEST_TEXT["C08"] = {
+    "technique": "runtime monitoring: real ArgList item stream compared with a reference classifier over a bounded-exhaustive token-list space and random lists; end-to-end through the Cli",
+    "design_ref": "DESIGN.md §6 C08",
+    "text": "Exhaustive over all token lists up to length 4/5 over 18 shapes; exploration beyond.",
+    "note": "Trusted base: reference classifier (30 lines), harness."}
